@@ -17,7 +17,7 @@ def edges(h):
 def main():
     ctx = Ctx("C04", "model_checking")
     thorough = ctx.tier == "thorough"
-    ctx.rule = ("TLC enumerates (thorough: all 48 825; quick: a seeded sample of ~4 900) the heaps of three objects over the mapped "
+    ctx.rule = ("TLC enumerates (thorough: all 66 978; quick: a seeded sample of ~11 900) the heaps of three objects over the mapped "
                 "model A, B<:A, C, alternatively mapped M with single / optional / list references (self references, 2- and "
                 "3-cycles, diamonds, aliasing inside one list and across lists, None, empty lists, a subclass instance in a "
                 "base-typed field, the alternatively mapped object inside a cycle) and every root, with the prediction of the "
